@@ -11,6 +11,7 @@ EXPLANATION = (
     "Message::length = body length + Header::byte_len(), the latter the constant 64; (R5) Body's data/vtable and Message's content are "
     "private; (R6) every MessageBody impl that is generic over MessageBody-bounded parameters measures its contents by calling byte_len "
     "on each such parameter (sum over elements), never by the in-memory size; the derive macro's output is checked in the thorough tier. "
+    '(R4 also: Message::set_body installs exactly the body it is given and every content setter builds the body from the new value; Message::try_clone returns None when the body cannot be cloned, never a body-less message.) '
     "Decides these necessary conditions only; not value equality / drop counts over operation sequences.")
 ASSUMPTIONS = ["TypeId::of::<T>() identifies T", "Box::into_raw/from_raw round-trip"]
 
